@@ -89,6 +89,13 @@ func (l *c04Ledger) seeValidity(name string, v uint32) {
 	l.validity[name] = append(h, v)
 }
 
+func (l *c04Ledger) lastValidity(name string) uint32 {
+	if h := l.validity[name]; len(h) > 0 {
+		return h[len(h)-1]
+	}
+	return 0
+}
+
 func (l *c04Ledger) seeUID(name string, v, uid uint32, marker int, fresh bool, what string) {
 	if uid == 0 || v == 0 {
 		return
@@ -232,6 +239,25 @@ func (C04) Execute(sc *core.Scenario, keepLog bool) *core.Result {
 								e.Fail("copyuid", "COPYUID announced destination UID %d in %q, no message is found under it", u, dest)
 							}
 							l.seeUID(dest, v, u, -1, false, "COPYUID")
+						}
+						// the pairs: the message found under the i-th destination UID is the one
+						// that was (is) under the i-th source UID
+						srcSet, dstSet := expandSet(f[2]), expandSet(f[3])
+						srcOwner := l.owner[srcName+"|"+fmt.Sprint(l.lastValidity(srcName))]
+						markerAt := map[uint32]int{}
+						for mk, u := range at {
+							markerAt[u] = mk
+						}
+						if len(srcSet) == len(dstSet) && srcOwner != nil && !e.Failed() {
+							for i := range srcSet {
+								sm, ok1 := srcOwner[srcSet[i]]
+								dm, ok2 := markerAt[dstSet[i]]
+								if ok1 && ok2 && sm >= 0 && sm != dm {
+									e.Fail("copyuid", "COPYUID %s %s pairs source UID %d (message <%d>) with destination UID %d of %q, which holds message <%d>", f[2], f[3], srcSet[i], sm, dstSet[i], dest, dm)
+									break
+								}
+								e.St.Probes["copyuid_pairs_checked"]++
+							}
 						}
 					}
 				}
